@@ -56,3 +56,28 @@ package keeper
 // Note (C09): Keeper.Liquidate runs the vault sweep, the borrow sweep and the surplus/debt pass in sequence and stops at the
 // first error; because each sweep is proved never to return an error (#c09-sweep-isolates-item-failures), the vault sweep
 // cannot starve the borrow sweep.
+
+// Per-vault step of the vault sweep (C01, C15): a step whose result is nil is committed by ApplyFuncIfNoError, so a step
+// may report success only if the liquidation of its vault either did not start (vault and vault custody untouched) or
+// completed (vault removed and exactly its collateral moved out of vault custody). A liquidation that failed part-way
+// must make the step fail, otherwise the half-done transfer would be committed.
+//@ func (k Keeper) LiquidateVaults$1
+//@   property C01, C15
+//@   let v0 = K("vault").GetVault(ctx, vault.Id).0
+//@   let vf0 = K("vault").GetVault(ctx, vault.Id).1
+//@   let ep = K("asset").GetPairsVault(ctx, v0.ExtendedPairVaultID).0
+//@   let pair = K("asset").GetPair(ctx, ep.PairId).0
+//@   let din = K("asset").GetAsset(ctx, pair.AssetIn).0.Denom
+//@   let vm = modaddr("vaultV1")
+//@   requires #vault-keyed: vf0 ==> v0.Id == vault.Id
+//@   requires #count-covers-this-vault: vf0 ==> K("vault").GetLengthOfVault(ctx) >= 1
+//@   letpost gone = !K("vault").GetVault(ctx, vault.Id).1
+//@   ensures #c01-committed-step-is-complete: result == nil && vf0 ==> (gone && bal(vm, din) == old(bal(vm, din)) - v0.AmountIn) || (!gone && bal(vm, din) == old(bal(vm, din)))
+
+// The surplus/debt pass (C09 support): whatever it does, it never touches the sweep offset records.
+//@ func (k Keeper) LiquidateForSurplusAndDebt
+//@   property C09
+//@   modular
+//@   modifies *
+//@   loop 0 invariant #offsets-untouched: forall i :: k.GetLiquidationOffsetHolder(ctx, "vault-liquidations", i) == old(k.GetLiquidationOffsetHolder(ctx, "vault-liquidations", i))
+//@   ensures #c09-offsets-untouched: forall i :: k.GetLiquidationOffsetHolder(ctx, "vault-liquidations", i) == old(k.GetLiquidationOffsetHolder(ctx, "vault-liquidations", i))
